@@ -499,3 +499,47 @@ pub fn run_line(line: &str) -> String {
     let cx = Cx { name, help, opts, hopts, maps, cl, lp, labels, vals, buckets, x, prefix, rlabels, only };
     format!("[{}]", run_all(&cx).join("; "))
 }
+
+/// `D n`: the FIRST use of the process-wide default registry, made by n threads at once.  Must be the first line a
+/// harness process sees.  Every thread leaves a spin barrier and registers its own counter through
+/// `register_int_counter!` (no registry named); afterwards `prometheus::gather()` - the same default registry - must
+/// show every counter whose registration returned Ok, and registering such a counter again must be refused.
+/// Output: `D ok=<registrations that returned Ok> missing=<of those, not gathered> readmitted=<of those, accepted twice>`.
+pub fn run_first_use(line: &str) -> String {
+    use std::sync::atomic::{AtomicBool, AtomicUsize, Ordering};
+    use std::sync::Arc;
+    let n: usize = line.split_whitespace().nth(1).and_then(|x| x.parse().ok()).unwrap_or(8);
+    let go = Arc::new(AtomicBool::new(false));
+    let ready = Arc::new(AtomicUsize::new(0));
+    let mut hs = Vec::new();
+    for i in 0..n {
+        let (go, ready) = (go.clone(), ready.clone());
+        hs.push(std::thread::spawn(move || {
+            ready.fetch_add(1, Ordering::SeqCst);
+            while !go.load(Ordering::SeqCst) {
+                std::hint::spin_loop();
+            }
+            let name = format!("pv_first_use_{}", i);
+            catch_unwind(AssertUnwindSafe(|| register_int_counter!(name, "h"))).ok().and_then(|r| r.ok())
+        }));
+    }
+    while ready.load(Ordering::SeqCst) < n {
+        std::hint::spin_loop();
+    }
+    go.store(true, Ordering::SeqCst);
+    let handles: Vec<Option<IntCounter>> = hs.into_iter().map(|h| h.join().unwrap_or(None)).collect();
+    let names: std::collections::HashSet<String> = prometheus::gather().iter().map(|f| f.get_name().to_string()).collect();
+    let (mut ok, mut missing, mut readmitted) = (0, 0, 0);
+    for (i, h) in handles.iter().enumerate() {
+        if let Some(c) = h {
+            ok += 1;
+            if !names.contains(&format!("pv_first_use_{}", i)) {
+                missing += 1;
+            }
+            if prometheus::register(Box::new(c.clone())).is_ok() {
+                readmitted += 1;
+            }
+        }
+    }
+    format!("D ok={} missing={} readmitted={}", ok, missing, readmitted)
+}
